@@ -650,7 +650,7 @@ class Script:
                     return ['PoolError', sorted(e.partial_results or [], key=repr)]
             return self.call(f, op.get('timeout', 30))
         if o == 'pool_restart':
-            r = self.call(lambda: p.restart_workers(timeout=1), 40)
+            r = self.call(lambda: p.restart_workers(timeout=1, **op.get('kwargs', {})), 40)
             if 'ret' in r:
                 self.pool_workers[op['pool']] = [(k, w, w.pid) for (k, w, _) in ws]
             return r
